@@ -68,8 +68,6 @@ struct History {
     long stopInsideIter1 = 0;
 };
 
-/** Execute the scenario's ops as a UCI session. Never returns on simulator-fatal conditions. */
-void runSession(const vf::Scenario& sc, History& h, vf::Result& res);
 
 /** Fill vsim::Config from scenario knobs/faults (shared by all harnesses). */
 void configFromScenario(const vf::Scenario& sc, vsim::Config& cfg);
@@ -94,4 +92,8 @@ extern void (*evalObserver)(const void* pos, int whiteContempt, int score, int f
 void addStatsToResult(vf::Result& res);
 
 } // namespace sess
+
+/** Execute the scenario's ops as a UCI session. Never returns on simulator-fatal conditions.
+ *  (Global name on purpose, see the comment at its definition.) */
+extern "C" void harness_session_run(const void* scenario /* vf::Scenario */, void* history /* sess::History */, void* result /* vf::Result */);
 #endif
